@@ -103,7 +103,25 @@ type vh02Session struct {
 
 // vh02Sess: Tversion(msize) first (reply awaited), then the stream written in pieces,
 // write side closed, replies read until the server closes.
+// vh02Sess: a session that appears to hang is replayed; only a hang seen three times in a row is reported
+// (the model says every such session ends: "blocked" is concluded from a timeout only in that direction).
 func vh02Sess(o *vhOut, r *rand.Rand, path string, msize uint32, stream []byte, sample bool) {
+	var res vh02Session
+	for try := 0; try < 3; try++ {
+		res = vh02SessOnce(r, path, msize, stream)
+		if !res.Hang {
+			break
+		}
+	}
+	if !sample && !res.Hang && res.Returned && res.VerOK {
+		return // fuzz sessions: only every n-th uneventful one goes through the reply comparison
+	}
+	vh02id++
+	res.ID = vh02id
+	o.Emit(res)
+}
+
+func vh02SessOnce(r *rand.Rand, path string, msize uint32, stream []byte) vh02Session {
 	a, b, err := vh02SocketPair()
 	if err != nil {
 		panic(err)
@@ -128,8 +146,11 @@ func vh02Sess(o *vhOut, r *rand.Rand, path string, msize uint32, stream []byte, 
 	body := vhLE32(msize)
 	body = vhPutString(body, "9P2000.L.Google.7")
 	a.Write(vhFrame(byte(msgTversion), 0xffff, body))
-	typ, _, _, err := vhReadFrame(a, 5*time.Second)
+	typ, _, _, err := vhReadFrame(a, 10*time.Second)
 	res.VerOK = err == nil && typ == byte(msgRversion)
+	if ne, ok := err.(net.Error); ok && ne.Timeout() {
+		res.Hang = true
+	}
 	var wg sync.WaitGroup
 	wg.Add(1)
 	go func() {
@@ -168,12 +189,7 @@ func vh02Sess(o *vhOut, r *rand.Rand, path string, msize uint32, stream []byte, 
 	case <-time.After(10 * time.Second):
 		res.Hang = true
 	}
-	if !sample && !res.Hang && res.Returned && res.VerOK {
-		return // fuzz sessions: only every n-th uneventful one goes through the reply comparison
-	}
-	vh02id++
-	res.ID = vh02id
-	o.Emit(res)
+	return res
 }
 
 // vh02Flush makes everything observed so far durable (a crash of the test binary must not lose it).
@@ -383,14 +399,19 @@ func vh02Fuzz(o *vhOut, r *rand.Rand, corpus [][]byte, seconds int) {
 		if r.Intn(3) == 0 {
 			sc = vh02Cuts(r, len(stream))
 		}
-		res := make(chan []vh02Event, 1)
-		rd := &vh02Reader{data: stream, script: sc}
-		go func() { res <- vh02Loop(rd, msize, func() int { return rd.pos }, 16) }()
 		var evs []vh02Event
-		select {
-		case evs = <-res:
-		case <-time.After(20 * time.Second):
-			evs = []vh02Event{{Kind: "hang"}}
+		for try := 0; try < 3; try++ { // a recv that does not return within 20 s, three times in a row, is a hang
+			res := make(chan []vh02Event, 1)
+			rd := &vh02Reader{data: stream, script: sc}
+			go func() { res <- vh02Loop(rd, msize, func() int { return rd.pos }, 16) }()
+			select {
+			case evs = <-res:
+			case <-time.After(20 * time.Second):
+				evs = []vh02Event{{Kind: "hang"}}
+			}
+			if evs[0].Kind != "hang" {
+				break
+			}
 		}
 		iters++
 		for _, e := range evs {
